@@ -3,6 +3,10 @@
 import glob, json, os, re
 VERIF = os.path.dirname(os.path.dirname(os.path.abspath(__file__)))
 WHY = {
+ 'C01-1': 'explicit range check + panicking constructor added in front of the sliced initialiser: residual-hash guard (exit 2)',
+ 'C01-3': 'the line-split regex is pinned as a source fact of the session unit: a changed pattern is a lost anchor (exit 2), its meaning (one part per LF/CRLF line) is an assumption',
+ 'C17-2': 'which capture group the number parser highlights: regex layer, not under contract',
+ 'C17-3': 'dynamic_type_tokinizer calls update_tokens with a different end: update_tokens and its callers are listed as not covered',
  'C02-2': 'recursive-descent parser (src/syntax): out of reach of both verifiers (DESIGN.md §10)',
  'C02-3': 'missing_token_adder is covered only by the thorough-tier bounded unit token_adder (quick tier does not run it)',
  'C03-1': 'AssignmentParser name construction: not under contract (C03 covers find_location only)',
